@@ -699,3 +699,636 @@ pub fn association_adapters(a: &ShardArgs, r: &mut Rng) {
         }
     }
 }
+
+// ---- K2: the outstation's application, information and control callbacks --------------------
+
+use dnp3::app::control::*;
+use dnp3::outstation::database::DatabaseHandle;
+use dnp3::outstation::{
+    ApplicationIin, BroadcastAction, BufferState, ClassCount, ControlHandler, ControlSupport,
+    FreezeIndices, FreezeInterval, FreezeType, OperateType, OutstationApplication,
+    OutstationInformation, RequestError, RestartDelay, TypeCount,
+};
+use std::sync::atomic::{AtomicI32, AtomicU32, AtomicUsize, Ordering};
+
+/// what the recording callbacks answer: an enumeration value, a number, the database pointer they expect
+static RET: AtomicI32 = AtomicI32::new(0);
+static RET_NUM: AtomicU32 = AtomicU32::new(0);
+static DB_PTR: AtomicUsize = AtomicUsize::new(0);
+
+fn db_ok(p: *mut DatabaseHandle) -> &'static str {
+    if p as usize == DB_PTR.load(Ordering::Relaxed) {
+        "db"
+    } else {
+        "WRONG-DATABASE-POINTER"
+    }
+}
+
+fn f_g12(v: &ffi::Group12Var1) -> String {
+    format!(
+        "{}/{}/{}/{} count{} on{} off{}",
+        norm(&v.code.tcc()),
+        v.code.clear,
+        v.code.queue,
+        norm(&v.code.op_type()),
+        v.count,
+        v.on_time,
+        v.off_time
+    )
+}
+
+fn n_g12(v: &Group12Var1) -> String {
+    let tcc = match v.code.tcc {
+        TripCloseCode::Unknown(_) => "nul".to_string(),
+        x => norm(&x),
+    };
+    let op = match v.code.op_type {
+        OpType::Unknown(_) => "nul".to_string(),
+        x => norm(&x),
+    };
+    format!(
+        "{}/{}/{}/{} count{} on{} off{}",
+        tcc, v.code.clear, v.code.queue, op, v.count, v.on_time, v.off_time
+    )
+}
+
+extern "C" fn ch_begin(ctx: *mut c_void) {
+    unsafe { log(ctx) }.push("begin".into());
+}
+extern "C" fn ch_end(db: *mut DatabaseHandle, ctx: *mut c_void) {
+    unsafe { log(ctx) }.push(format!("end {}", db_ok(db)));
+}
+extern "C" fn ch_sel_g12(v: ffi::Group12Var1, index: u16, db: *mut DatabaseHandle, ctx: *mut c_void) -> c_int {
+    unsafe { log(ctx) }.push(format!("select g12v1 {} {index} {}", f_g12(&v), db_ok(db)));
+    RET.load(Ordering::Relaxed)
+}
+extern "C" fn ch_op_g12(v: ffi::Group12Var1, index: u16, op: c_int, db: *mut DatabaseHandle, ctx: *mut c_void) -> c_int {
+    unsafe { log(ctx) }.push(format!(
+        "operate g12v1 {} {index} {} {}",
+        f_g12(&v),
+        norm(&ffi::OperateType::from(op)),
+        db_ok(db)
+    ));
+    RET.load(Ordering::Relaxed)
+}
+macro_rules! ch_analog {
+    ($sel:ident, $op:ident, $label:literal, $ty:ty, |$v:ident| $fmt:expr) => {
+        extern "C" fn $sel($v: $ty, index: u16, db: *mut DatabaseHandle, ctx: *mut c_void) -> c_int {
+            unsafe { log(ctx) }.push(format!("select {} {} {index} {}", $label, $fmt, db_ok(db)));
+            RET.load(Ordering::Relaxed)
+        }
+        extern "C" fn $op($v: $ty, index: u16, op: c_int, db: *mut DatabaseHandle, ctx: *mut c_void) -> c_int {
+            unsafe { log(ctx) }.push(format!(
+                "operate {} {} {index} {} {}",
+                $label,
+                $fmt,
+                norm(&ffi::OperateType::from(op)),
+                db_ok(db)
+            ));
+            RET.load(Ordering::Relaxed)
+        }
+    };
+}
+ch_analog!(ch_sel_v1, ch_op_v1, "g41v1", i32, |v| v.to_string());
+ch_analog!(ch_sel_v2, ch_op_v2, "g41v2", i16, |v| v.to_string());
+ch_analog!(ch_sel_v3, ch_op_v3, "g41v3", f32, |v| format!("{:08x}", v.to_bits()));
+ch_analog!(ch_sel_v4, ch_op_v4, "g41v4", f64, |v| format!("{:016x}", v.to_bits()));
+
+fn control_handler(ctx: *mut Log) -> ffi::ControlHandler {
+    ffi::ControlHandler {
+        begin_fragment: Some(ch_begin),
+        end_fragment: Some(ch_end),
+        select_g12v1: Some(ch_sel_g12),
+        operate_g12v1: Some(ch_op_g12),
+        select_g41v1: Some(ch_sel_v1),
+        operate_g41v1: Some(ch_op_v1),
+        select_g41v2: Some(ch_sel_v2),
+        operate_g41v2: Some(ch_op_v2),
+        select_g41v3: Some(ch_sel_v3),
+        operate_g41v3: Some(ch_op_v3),
+        select_g41v4: Some(ch_sel_v4),
+        operate_g41v4: Some(ch_op_v4),
+        on_destroy: None,
+        ctx: ctx as *mut c_void,
+    }
+}
+
+const OP_TYPES: [OperateType; 3] = [
+    OperateType::SelectBeforeOperate,
+    OperateType::DirectOperate,
+    OperateType::DirectOperateNoAck,
+];
+
+pub fn control_adapter(a: &ShardArgs, r: &mut Rng, rounds: usize) {
+    let mut out_handle = dnp3::verif::util::detached_outstation(4);
+    let mut db = out_handle.get_database_handle();
+    DB_PTR.store(&mut db as *mut DatabaseHandle as usize, Ordering::Relaxed);
+    let statuses = super::variants::<ffi::CommandStatus>();
+    let mut got: Box<Log> = Box::new(vec![]);
+    let mut want: Log = vec![];
+    let mut h = control_handler(&mut *got as *mut Log);
+    let mut returned = 0u64;
+    for round in 0..rounds {
+        ControlHandler::begin_fragment(&mut h);
+        want.push("begin".into());
+        for _ in 0..r.range(1, 5) {
+            // what the application answers, and what the library must get
+            let st = statuses[(round + r.usize_below(statuses.len())) % statuses.len()].clone();
+            RET.store(st.clone().into(), Ordering::Relaxed);
+            let index = r.u16();
+            let op = *r.pick(&OP_TYPES);
+            let select = r.bool();
+            let res: CommandStatus = match r.below(5) {
+                0 => {
+                    let c = Group12Var1::new(
+                        dnp3::verif::util::control_code_from(r.u8()),
+                        r.u8(),
+                        r.u64() as u32,
+                        r.u64() as u32,
+                    );
+                    if select {
+                        want.push(format!("select g12v1 {} {index} db", n_g12(&c)));
+                        ControlSupport::<Group12Var1>::select(&mut h, c, index, &mut db)
+                    } else {
+                        want.push(format!("operate g12v1 {} {index} {} db", n_g12(&c), norm(&op)));
+                        ControlSupport::<Group12Var1>::operate(&mut h, c, index, op, &mut db)
+                    }
+                }
+                1 => {
+                    let c = Group41Var1::new(r.u64() as i32);
+                    if select {
+                        want.push(format!("select g41v1 {} {index} db", c.value));
+                        ControlSupport::<Group41Var1>::select(&mut h, c, index, &mut db)
+                    } else {
+                        want.push(format!("operate g41v1 {} {index} {} db", c.value, norm(&op)));
+                        ControlSupport::<Group41Var1>::operate(&mut h, c, index, op, &mut db)
+                    }
+                }
+                2 => {
+                    let c = Group41Var2::new(r.u16() as i16);
+                    if select {
+                        want.push(format!("select g41v2 {} {index} db", c.value));
+                        ControlSupport::<Group41Var2>::select(&mut h, c, index, &mut db)
+                    } else {
+                        want.push(format!("operate g41v2 {} {index} {} db", c.value, norm(&op)));
+                        ControlSupport::<Group41Var2>::operate(&mut h, c, index, op, &mut db)
+                    }
+                }
+                3 => {
+                    let c = Group41Var3::new(f32::from_bits(r.u64() as u32));
+                    if select {
+                        want.push(format!("select g41v3 {:08x} {index} db", c.value.to_bits()));
+                        ControlSupport::<Group41Var3>::select(&mut h, c, index, &mut db)
+                    } else {
+                        want.push(format!("operate g41v3 {:08x} {index} {} db", c.value.to_bits(), norm(&op)));
+                        ControlSupport::<Group41Var3>::operate(&mut h, c, index, op, &mut db)
+                    }
+                }
+                _ => {
+                    let c = Group41Var4::new(some_f64(r));
+                    if select {
+                        want.push(format!("select g41v4 {:016x} {index} db", c.value.to_bits()));
+                        ControlSupport::<Group41Var4>::select(&mut h, c, index, &mut db)
+                    } else {
+                        want.push(format!("operate g41v4 {:016x} {index} {} db", c.value.to_bits(), norm(&op)));
+                        ControlSupport::<Group41Var4>::operate(&mut h, c, index, op, &mut db)
+                    }
+                }
+            };
+            out::eval(1);
+            if norm(&res) != norm(&st) {
+                viol(
+                    a,
+                    "callback_mismatch",
+                    &format!("control_status|{}", norm(&st)),
+                    format!("the application answered {st:?}; the library received {res:?}"),
+                );
+            } else {
+                returned += 1;
+            }
+        }
+        let _ = ControlHandler::end_fragment(&mut h, &mut db);
+        want.push("end db".into());
+    }
+    out::count("callbacks_ok_control_status_returned", returned);
+    compare(a, "control_handler", "all", &got, &want);
+    drop(out_handle);
+}
+
+// ---- outstation application ---------------------------------------------------------------------
+
+extern "C" fn oa_delay(_ctx: *mut c_void) -> u16 {
+    RET_NUM.load(Ordering::Relaxed) as u16
+}
+extern "C" fn oa_write_time(time: u64, ctx: *mut c_void) -> c_int {
+    unsafe { log(ctx) }.push(format!("write_absolute_time {time}"));
+    RET.load(Ordering::Relaxed)
+}
+extern "C" fn oa_iin(_ctx: *mut c_void) -> ffi::ApplicationIin {
+    let v = RET_NUM.load(Ordering::Relaxed);
+    ffi::ApplicationIin {
+        need_time: v & 1 != 0,
+        local_control: v & 2 != 0,
+        device_trouble: v & 4 != 0,
+        config_corrupt: v & 8 != 0,
+    }
+}
+extern "C" fn oa_cold(ctx: *mut c_void) -> ffi::RestartDelay {
+    unsafe { log(ctx) }.push("cold_restart".into());
+    ffi::RestartDelay {
+        restart_type: RET.load(Ordering::Relaxed),
+        value: RET_NUM.load(Ordering::Relaxed) as u16,
+    }
+}
+extern "C" fn oa_warm(ctx: *mut c_void) -> ffi::RestartDelay {
+    unsafe { log(ctx) }.push("warm_restart".into());
+    ffi::RestartDelay {
+        restart_type: RET.load(Ordering::Relaxed),
+        value: RET_NUM.load(Ordering::Relaxed) as u16,
+    }
+}
+extern "C" fn oa_fr_all(ft: c_int, db: *mut DatabaseHandle, ctx: *mut c_void) -> c_int {
+    unsafe { log(ctx) }.push(format!("freeze all {} {}", norm(&ffi::FreezeType::from(ft)), db_ok(db)));
+    RET.load(Ordering::Relaxed)
+}
+extern "C" fn oa_fr_all_at(db: *mut DatabaseHandle, time: u64, interval: u32, ctx: *mut c_void) -> c_int {
+    unsafe { log(ctx) }.push(format!("freeze all at {time} every {interval} {}", db_ok(db)));
+    RET.load(Ordering::Relaxed)
+}
+extern "C" fn oa_fr_range(start: u16, stop: u16, ft: c_int, db: *mut DatabaseHandle, ctx: *mut c_void) -> c_int {
+    unsafe { log(ctx) }.push(format!(
+        "freeze {start}..{stop} {} {}",
+        norm(&ffi::FreezeType::from(ft)),
+        db_ok(db)
+    ));
+    RET.load(Ordering::Relaxed)
+}
+extern "C" fn oa_fr_range_at(start: u16, stop: u16, db: *mut DatabaseHandle, time: u64, interval: u32, ctx: *mut c_void) -> c_int {
+    unsafe { log(ctx) }.push(format!("freeze {start}..{stop} at {time} every {interval} {}", db_ok(db)));
+    RET.load(Ordering::Relaxed)
+}
+extern "C" fn oa_support_db(_ctx: *mut c_void) -> bool {
+    RET_NUM.load(Ordering::Relaxed) != 0
+}
+extern "C" fn oa_begin_db(ctx: *mut c_void) {
+    unsafe { log(ctx) }.push("begin_dead_bands".into());
+}
+extern "C" fn oa_write_db(index: u16, v: f64, ctx: *mut c_void) {
+    unsafe { log(ctx) }.push(format!("dead_band {index} {:016x}", v.to_bits()));
+}
+extern "C" fn oa_end_db(ctx: *mut c_void) {
+    unsafe { log(ctx) }.push("end_dead_bands".into());
+}
+extern "C" fn oa_begin_confirm(ctx: *mut c_void) {
+    unsafe { log(ctx) }.push("begin_confirm".into());
+}
+extern "C" fn oa_cleared(id: u64, ctx: *mut c_void) {
+    unsafe { log(ctx) }.push(format!("cleared {id}"));
+}
+extern "C" fn oa_end_confirm(s: ffi::BufferState, ctx: *mut c_void) {
+    let c = &s.classes;
+    let t = &s.types;
+    unsafe { log(ctx) }.push(format!(
+        "end_confirm classes {} {} {} types {} {} {} {} {} {} {} {}",
+        c.num_class_1,
+        c.num_class_2,
+        c.num_class_3,
+        t.num_binary_input,
+        t.num_double_bit_binary_input,
+        t.num_binary_output_status,
+        t.num_counter,
+        t.num_frozen_counter,
+        t.num_analog,
+        t.num_analog_output_status,
+        t.num_octet_string
+    ));
+}
+
+fn application(ctx: *mut Log) -> ffi::OutstationApplication {
+    ffi::OutstationApplication {
+        get_processing_delay_ms: Some(oa_delay),
+        write_absolute_time: Some(oa_write_time),
+        get_application_iin: Some(oa_iin),
+        cold_restart: Some(oa_cold),
+        warm_restart: Some(oa_warm),
+        freeze_counters_all: Some(oa_fr_all),
+        freeze_counters_all_at_time: Some(oa_fr_all_at),
+        freeze_counters_range: Some(oa_fr_range),
+        freeze_counters_range_at_time: Some(oa_fr_range_at),
+        support_write_analog_dead_bands: Some(oa_support_db),
+        begin_write_analog_dead_bands: Some(oa_begin_db),
+        write_analog_dead_band: Some(oa_write_db),
+        end_write_analog_dead_bands: Some(oa_end_db),
+        write_string_attr: None,
+        write_float_attr: None,
+        write_double_attr: None,
+        write_uint_attr: None,
+        write_int_attr: None,
+        write_octet_string_attr: None,
+        write_bit_string_attr: None,
+        write_time_attr: None,
+        begin_confirm: Some(oa_begin_confirm),
+        event_cleared: Some(oa_cleared),
+        end_confirm: Some(oa_end_confirm),
+        on_destroy: None,
+        ctx: ctx as *mut c_void,
+    }
+}
+
+fn request_result_name(r: &Result<(), RequestError>) -> String {
+    match r {
+        Ok(()) => "ok".into(),
+        Err(e) => norm(e),
+    }
+}
+
+pub fn application_adapter(a: &ShardArgs, r: &mut Rng) {
+    let mut out_handle = dnp3::verif::util::detached_outstation(4);
+    let mut db = out_handle.get_database_handle();
+    DB_PTR.store(&mut db as *mut DatabaseHandle as usize, Ordering::Relaxed);
+    let mut got: Box<Log> = Box::new(vec![]);
+    let mut want: Log = vec![];
+    let mut app = application(&mut *got as *mut Log);
+    let mut check = |what: &str, ok: bool, why: String| {
+        out::eval(1);
+        if !ok {
+            viol(a, "callback_mismatch", &format!("application|{what}"), why);
+        } else {
+            out::count("callbacks_ok_application_results", 1);
+        }
+    };
+    // processing delay
+    for v in [0u16, 1, 255, 256, 65535, r.u16()] {
+        RET_NUM.store(v as u32, Ordering::Relaxed);
+        let x = OutstationApplication::get_processing_delay_ms(&app);
+        check("processing_delay", x == v, format!("application answered {v}, library received {x}"));
+    }
+    // time writes
+    for res in super::variants::<ffi::WriteTimeResult>() {
+        RET.store(res.clone().into(), Ordering::Relaxed);
+        let t = r.u64() & 0x0000_FFFF_FFFF_FFFF;
+        let x = OutstationApplication::write_absolute_time(&mut app, Timestamp::new(t));
+        want.push(format!("write_absolute_time {t}"));
+        check(
+            "write_absolute_time",
+            request_result_name(&x) == norm(&res),
+            format!("application answered {res:?}, library received {x:?}"),
+        );
+    }
+    // application indications: all 16 combinations
+    for v in 0..16u32 {
+        RET_NUM.store(v, Ordering::Relaxed);
+        let x: ApplicationIin = OutstationApplication::get_application_iin(&app);
+        let got_bits = (x.need_time as u32)
+            | (x.local_control as u32) << 1
+            | (x.device_trouble as u32) << 2
+            | (x.config_corrupt as u32) << 3;
+        check("application_iin", got_bits == v, format!("application answered bits {v:04b}, library received {x:?}"));
+    }
+    // restart delays
+    for ty in super::variants::<ffi::RestartDelayType>() {
+        for v in [0u16, 1, 65535, r.u16()] {
+            RET.store(ty.clone().into(), Ordering::Relaxed);
+            RET_NUM.store(v as u32, Ordering::Relaxed);
+            for cold in [true, false] {
+                let x = if cold {
+                    want.push("cold_restart".into());
+                    OutstationApplication::cold_restart(&mut app)
+                } else {
+                    want.push("warm_restart".into());
+                    OutstationApplication::warm_restart(&mut app)
+                };
+                let ok = match (&ty, x) {
+                    (ffi::RestartDelayType::NotSupported, None) => true,
+                    (ffi::RestartDelayType::Seconds, Some(RestartDelay::Seconds(s))) => s == v,
+                    (ffi::RestartDelayType::MilliSeconds, Some(RestartDelay::Milliseconds(s))) => s == v,
+                    _ => false,
+                };
+                check("restart_delay", ok, format!("application answered ({ty:?}, {v}), library received {x:?}"));
+            }
+        }
+    }
+    // freezes: indices x type x answer
+    for res in super::variants::<ffi::FreezeResult>() {
+        RET.store(res.clone().into(), Ordering::Relaxed);
+        for _ in 0..24 {
+            let (start, stop) = (r.u16(), r.u16());
+            let indices = if r.bool() {
+                FreezeIndices::All
+            } else {
+                FreezeIndices::Range(start, stop)
+            };
+            let t = match r.below(3) {
+                0 => 0u64,
+                _ => r.u64() & 0x0000_FFFF_FFFF_FFFF,
+            };
+            let i = match r.below(3) {
+                0 => 0u32,
+                _ => r.u64() as u32,
+            };
+            let ft = match r.below(3) {
+                0 => FreezeType::ImmediateFreeze,
+                1 => FreezeType::FreezeAndClear,
+                _ => FreezeType::FreezeAtTime(FreezeInterval::new(Timestamp::new(t), i)),
+            };
+            let idx = match indices {
+                FreezeIndices::All => "all".to_string(),
+                FreezeIndices::Range(s, e) => format!("{s}..{e}"),
+            };
+            want.push(match ft {
+                FreezeType::ImmediateFreeze => format!("freeze {idx} immediatefreeze db"),
+                FreezeType::FreezeAndClear => format!("freeze {idx} freezeandclear db"),
+                FreezeType::FreezeAtTime(_) => format!("freeze {idx} at {t} every {i} db"),
+            });
+            let x = OutstationApplication::freeze_counter(&mut app, indices, ft, &mut db);
+            check(
+                "freeze_result",
+                request_result_name(&x) == norm(&res),
+                format!("application answered {res:?}, library received {x:?}"),
+            );
+        }
+    }
+    // dead-band writes
+    for v in [0u32, 1] {
+        RET_NUM.store(v, Ordering::Relaxed);
+        let x = OutstationApplication::support_write_analog_dead_bands(&mut app);
+        check("support_dead_bands", x == (v != 0), format!("application answered {v}, library received {x}"));
+    }
+    OutstationApplication::begin_write_analog_dead_bands(&mut app);
+    want.push("begin_dead_bands".into());
+    for _ in 0..32 {
+        let (i, v) = (r.u16(), some_f64(r));
+        OutstationApplication::write_analog_dead_band(&mut app, i, v);
+        want.push(format!("dead_band {i} {:016x}", v.to_bits()));
+    }
+    let _ = OutstationApplication::end_write_analog_dead_bands(&mut app);
+    want.push("end_dead_bands".into());
+    // confirmation bracket with distinct sentinels in every counter
+    for _ in 0..16 {
+        OutstationApplication::begin_confirm(&mut app);
+        want.push("begin_confirm".into());
+        for _ in 0..r.range(0, 4) {
+            let id = r.u64();
+            OutstationApplication::event_cleared(&mut app, id);
+            want.push(format!("cleared {id}"));
+        }
+        let n: Vec<usize> = (0..11).map(|k| (r.u16() as usize) * 16 + k).collect();
+        let s = BufferState {
+            classes: ClassCount {
+                num_class_1: n[0],
+                num_class_2: n[1],
+                num_class_3: n[2],
+            },
+            types: TypeCount {
+                num_binary_input: n[3],
+                num_double_bit_binary_input: n[4],
+                num_binary_output_status: n[5],
+                num_counter: n[6],
+                num_frozen_counter: n[7],
+                num_analog: n[8],
+                num_analog_output_status: n[9],
+                num_octet_string: n[10],
+            },
+        };
+        let _ = OutstationApplication::end_confirm(&mut app, s);
+        want.push(format!(
+            "end_confirm classes {} {} {} types {} {} {} {} {} {} {} {}",
+            n[0], n[1], n[2], n[3], n[4], n[5], n[6], n[7], n[8], n[9], n[10]
+        ));
+    }
+    drop(check);
+    compare(a, "outstation_application", "all", &got, &want);
+    drop(out_handle);
+}
+
+// ---- outstation information -------------------------------------------------------------------------
+
+extern "C" fn oi_request(h: ffi::RequestHeader, ctx: *mut c_void) {
+    let c = &h.control_field;
+    unsafe { log(ctx) }.push(format!(
+        "request fir{} fin{} con{} uns{} seq{} {}",
+        c.fir,
+        c.fin,
+        c.con,
+        c.uns,
+        c.seq,
+        norm(&h.function())
+    ));
+}
+extern "C" fn oi_broadcast(fc: c_int, action: c_int, ctx: *mut c_void) {
+    unsafe { log(ctx) }.push(format!(
+        "broadcast {} {}",
+        norm(&ffi::FunctionCode::from(fc)),
+        norm(&ffi::BroadcastAction::from(action))
+    ));
+}
+macro_rules! oi_seq {
+    ($f:ident, $label:literal) => {
+        extern "C" fn $f(ecsn: u8, ctx: *mut c_void) {
+            unsafe { log(ctx) }.push(format!("{} {ecsn}", $label));
+        }
+    };
+}
+oi_seq!(oi_enter_sol, "enter_solicited_confirm_wait");
+oi_seq!(oi_sol_timeout, "solicited_confirm_timeout");
+oi_seq!(oi_sol_received, "solicited_confirm_received");
+oi_seq!(oi_enter_unsol, "enter_unsolicited_confirm_wait");
+oi_seq!(oi_unsol_confirmed, "unsolicited_confirmed");
+extern "C" fn oi_new_request(ctx: *mut c_void) {
+    unsafe { log(ctx) }.push("solicited_confirm_wait_new_request".into());
+}
+extern "C" fn oi_wrong_seq(ecsn: u8, seq: u8, ctx: *mut c_void) {
+    unsafe { log(ctx) }.push(format!("wrong_solicited_confirm_seq {ecsn} {seq}"));
+}
+extern "C" fn oi_unexpected(uns: bool, seq: u8, ctx: *mut c_void) {
+    unsafe { log(ctx) }.push(format!("unexpected_confirm {uns} {seq}"));
+}
+extern "C" fn oi_unsol_timeout(ecsn: u8, retry: bool, ctx: *mut c_void) {
+    unsafe { log(ctx) }.push(format!("unsolicited_confirm_timeout {ecsn} {retry}"));
+}
+extern "C" fn oi_clear_restart(ctx: *mut c_void) {
+    unsafe { log(ctx) }.push("clear_restart_iin".into());
+}
+
+pub fn information_adapter(a: &ShardArgs, r: &mut Rng) {
+    let mut got: Box<Log> = Box::new(vec![]);
+    let mut want: Log = vec![];
+    let mut info = ffi::OutstationInformation {
+        process_request_from_idle: Some(oi_request),
+        broadcast_received: Some(oi_broadcast),
+        enter_solicited_confirm_wait: Some(oi_enter_sol),
+        solicited_confirm_timeout: Some(oi_sol_timeout),
+        solicited_confirm_received: Some(oi_sol_received),
+        solicited_confirm_wait_new_request: Some(oi_new_request),
+        wrong_solicited_confirm_seq: Some(oi_wrong_seq),
+        unexpected_confirm: Some(oi_unexpected),
+        enter_unsolicited_confirm_wait: Some(oi_enter_unsol),
+        unsolicited_confirm_timeout: Some(oi_unsol_timeout),
+        unsolicited_confirmed: Some(oi_unsol_confirmed),
+        clear_restart_iin: Some(oi_clear_restart),
+        on_destroy: None,
+        ctx: &mut *got as *mut Log as *mut c_void,
+    };
+    let sq = |x: u8| dnp3::verif::util::control_field_from(x & 15).seq;
+    for code in 0..=255u8 {
+        let Some(fc) = FunctionCode::from(code) else {
+            continue;
+        };
+        // every control octet with every function code over the loop
+        for k in 0..4u8 {
+            let ctrl = code.wrapping_mul(7).wrapping_add(k.wrapping_mul(67)) ^ r.u8();
+            let cf = dnp3::verif::util::control_field_from(ctrl);
+            OutstationInformation::process_request_from_idle(
+                &mut info,
+                RequestHeader {
+                    control: cf,
+                    function: fc,
+                },
+            );
+            want.push(format!(
+                "request fir{} fin{} con{} uns{} seq{} {}",
+                cf.fir,
+                cf.fin,
+                cf.con,
+                cf.uns,
+                cf.seq.value(),
+                norm(&fc)
+            ));
+        }
+        for action in [
+            BroadcastAction::Processed,
+            BroadcastAction::IgnoredByConfiguration,
+            BroadcastAction::BadObjectHeaders,
+            BroadcastAction::UnsupportedFunction(fc),
+        ] {
+            OutstationInformation::broadcast_received(&mut info, fc, action);
+            want.push(format!("broadcast {} {}", norm(&fc), norm(&action)));
+        }
+    }
+    for s in 0..16u8 {
+        let t = (s * 5 + 3) & 15;
+        OutstationInformation::enter_solicited_confirm_wait(&mut info, sq(s));
+        want.push(format!("enter_solicited_confirm_wait {s}"));
+        OutstationInformation::solicited_confirm_timeout(&mut info, sq(s));
+        want.push(format!("solicited_confirm_timeout {s}"));
+        OutstationInformation::solicited_confirm_received(&mut info, sq(s));
+        want.push(format!("solicited_confirm_received {s}"));
+        OutstationInformation::solicited_confirm_wait_new_request(&mut info);
+        want.push("solicited_confirm_wait_new_request".into());
+        OutstationInformation::wrong_solicited_confirm_seq(&mut info, sq(s), sq(t));
+        want.push(format!("wrong_solicited_confirm_seq {s} {t}"));
+        for b in [false, true] {
+            OutstationInformation::unexpected_confirm(&mut info, b, sq(s));
+            want.push(format!("unexpected_confirm {b} {s}"));
+            OutstationInformation::unsolicited_confirm_timeout(&mut info, sq(s), b);
+            want.push(format!("unsolicited_confirm_timeout {s} {b}"));
+        }
+        OutstationInformation::enter_unsolicited_confirm_wait(&mut info, sq(s));
+        want.push(format!("enter_unsolicited_confirm_wait {s}"));
+        OutstationInformation::unsolicited_confirmed(&mut info, sq(s));
+        want.push(format!("unsolicited_confirmed {s}"));
+    }
+    OutstationInformation::clear_restart_iin(&mut info);
+    want.push("clear_restart_iin".into());
+    compare(a, "outstation_information", "all", &got, &want);
+}
